@@ -17,6 +17,7 @@ import (
 
 	"verifharness/core"
 	"verifharness/gen"
+	"verifharness/lib"
 	rm "verifharness/refmodel"
 )
 
@@ -94,6 +95,70 @@ func runC15(c *core.Ctx) {
 		}
 	})
 	c.Exhaustive(fmt.Sprintf("all %d boundary (published, expires) combinations", len(pubs)*len(offs)))
+
+	// the same arithmetic on values built through the constructors (NewLeaseSet2, both
+	// EncryptedLeaseSet constructors): the fields handed over are the fields stored, at every
+	// boundary, and the times derived from them are exact
+	c.Job("published-plus-expires-constructed", len(pubs)*len(offs)+c.N(150, 3000), func(i int, r *core.Rand) {
+		var pub uint32
+		var off uint16
+		if i < len(pubs)*len(offs) {
+			pub, off = pubs[i/len(offs)], offs[i%len(offs)]
+		} else {
+			pub, off = r.Uint32(), uint16(r.Pick(65536))
+		}
+		want := new(big.Int).Add(big.NewInt(int64(pub)), big.NewInt(int64(off)))
+		want.Mul(want, big.NewInt(1000))
+		sh := gen.Shape{"published": pub, "expires": off, "constructed": true}
+		in := []byte(fmt.Sprintf("ctor %d+%d", pub, off))
+		c.Eval(1)
+		c.Nontrivial([]byte("pe-ctor"), in)
+		check := func(site string, gotPub uint32, gotOff uint16, pt, et time.Time) {
+			if gotPub != pub || gotOff != off {
+				c.Violate(site, "field-differs", sh, in, fmt.Sprintf("constructed with published %d, expires %d; the value reports %d, %d", pub, off, gotPub, gotOff))
+				return
+			}
+			if unixMsBig(pt).Cmp(new(big.Int).Mul(big.NewInt(int64(pub)), big.NewInt(1000))) != 0 {
+				c.Violate(site+".PublishedTime", "published-time-inexact", sh, in, fmt.Sprintf("published %d s, PublishedTime() = %v", pub, pt.Unix()))
+			}
+			if unixMsBig(et).Cmp(want) != 0 {
+				c.Violate(site+".ExpirationTime", "expiration-inexact", sh, in, fmt.Sprintf("published %d + expires %d, ExpirationTime() = %d s", pub, off, et.Unix()))
+			}
+		}
+		l2, _ := gen.LeaseSet2(r)
+		l2.Published, l2.Expires, l2.Flags, l2.Offline = pub, off, l2.Flags&6, nil
+		if len(l2.Leases) == 0 {
+			l2.Leases = []rm.Lease2{gen.Lease2(r)}
+		}
+		l2.Keys = []rm.EncKey{{Type: 4, Data: r.Bytes(32)}}
+		if p, ok, err := lib.BuildLeaseSet2(l2, nil); ok && err == nil {
+			c.Call("LeaseSet2 times (constructed)", in, func() {
+				check("lease_set2.NewLeaseSet2", p.Published(), p.Expires(), p.PublishedTime(), p.ExpirationTime())
+			})
+			c.Bucket("ls2-constructed-checked")
+		}
+		st := []int{7, 11}[i%2]
+		key, _ := rm.NewSigKey(st, r)
+		el, _ := gen.EncryptedLeaseSet(r)
+		el.SigType, el.BlindedKey, el.Offline, el.Flags = uint16(st), key.Pub, nil, el.Flags&2
+		el.Published, el.Expires = pub, off
+		if a, err := encrypted_leaseset.NewEncryptedLeaseSet(el.SigType, el.BlindedKey, pub, off, el.Flags, nil, el.Inner, key.Ed25519Private()); err == nil {
+			c.Call("EncryptedLeaseSet times (constructed)", in, func() {
+				check("encrypted_leaseset.NewEncryptedLeaseSet", a.Published(), a.Expires(), a.PublishedTime(), a.ExpirationTime())
+			})
+			c.Bucket("els-constructed-checked")
+		}
+		d, _ := gen.KACOf(r, st, 4)
+		copy(d.Block[384-32:], key.Pub)
+		if dest, ok, err := lib.BuildDestination(d); ok && err == nil {
+			if b, err := encrypted_leaseset.NewEncryptedLeaseSetFromDestination(*dest, pub, off, el.Flags, nil, el.Inner, key.Ed25519Private()); err == nil {
+				c.Call("EncryptedLeaseSet times (constructed from destination)", in, func() {
+					check("encrypted_leaseset.NewEncryptedLeaseSetFromDestination", b.Published(), b.Expires(), b.PublishedTime(), b.ExpirationTime())
+				})
+				c.Bucket("els-from-destination-checked")
+			}
+		}
+	})
 
 	// Lease / Lease2 time conversions and the 32-bit constructor's range check
 	secs := []int64{-1, -1 << 31, 0, 1, 1<<31 - 1, 1 << 31, 1<<32 - 1, 1 << 32, 1<<32 + 1, 1 << 33, 1 << 40, 1 << 62 / 1000,
